@@ -105,7 +105,7 @@ func init() {
 }
 
 // name families that occur as YAML keys / needs entries / step ids in the generated shapes
-var reYAMLName = regexp.MustCompile(`(?i)\b(job\d+|s\d+(j\d+)?|din\d|cin\d|tok\d|out\d|wout\d|os|ver|cfg|extra|fetch-depth|ref|token)\b`)
+var reYAMLName = regexp.MustCompile(`(?i)\b(job\d+|s\d+(j\d+)?|din\d|cin\d|tok\d|out\d|wout\d|os|ver|cfg|extra|fetch-depth|ref|token|plat|alpha|beta|gamma|delta)\b`)
 var reIdent = regexp.MustCompile(`[A-Za-z_][A-Za-z0-9_-]*`)
 var reJSONKey = regexp.MustCompile(`"([A-Za-z_]+)"\s*:`)
 
@@ -278,6 +278,41 @@ func TestC08(t *testing.T) {
 					"env.FIXED",
 					"github['sha']",
 					"always() || success() || failure() || cancelled()",
+				}
+				// matrix values that are mappings: their member names are property names too
+				if g.b("objmatrix") {
+					y.ln("  zmatrix:")
+					y.ln("    runs-on: ubuntu-latest")
+					y.ln("    strategy:")
+					y.ln("      matrix:")
+					y.ln("        plat:")
+					y.ln("          - alpha: 1")
+					y.ln("            beta: x")
+					y.ln("          - alpha: 2")
+					y.ln("            beta: y")
+					y.ln("            delta:")
+					y.ln("              gamma: 1")
+					if g.b("objinclude") {
+						y.ln("        include:")
+						y.ln("          - plat:")
+						y.ln("              alpha: 3")
+						y.ln("              beta: z")
+						y.ln("            extra:")
+						y.ln("              gamma: 1")
+					}
+					if g.b("objexclude") {
+						y.ln("        exclude:")
+						y.ln("          - plat:")
+						y.ln("              alpha: 1")
+					}
+					y.ln("    steps:")
+					for _, e := range []string{"matrix.plat.alpha", "matrix.plat.beta == 'x'", "matrix.plat.delta.gamma", "matrix.extra.gamma", "matrix.plat.nosuch", "matrix.plat['alpha']", "toJSON(matrix.plat.delta)"} {
+						if g.b("objuse") {
+							y.ln("      - run: echo")
+							y.ln("        env:")
+							y.ln("          V: ${{ %s }}", e)
+						}
+					}
 				}
 				// the same kinds of expression in script positions, where the untrusted-input analysis runs
 				scriptExprs := []string{
